@@ -42,6 +42,11 @@ struct OracleInner {
 	// xxh3_64(key) -> commit_seq of the most recent writer of that key.
 	recent_writes: HashMap<u64, u64>,
 
+	// xxh3_64(key) -> (stamp that overwrote the entry, stamp it overwrote). Lets
+	// `rollback` put the previous committed stamp back instead of forgetting
+	// that the key was ever written. Pruned together with `recent_writes`.
+	displaced: HashMap<u64, (u64, u64)>,
+
 	// The smallest seq still represented in the map: every commit at
 	// `seq >= kept_since` is recorded. A txn with `start_seq < kept_since`
 	// cannot be soundly validated (its window has been pruned) and gets
@@ -78,6 +83,7 @@ impl CommitOracle {
 		Self {
 			inner: Mutex::new(OracleInner {
 				recent_writes: HashMap::new(),
+				displaced: HashMap::new(),
 				kept_since: 0,
 				commits_since_gc: 0,
 				#[cfg(debug_assertions)]
@@ -131,7 +137,16 @@ impl CommitOracle {
 		let mut g = self.inner.lock();
 		let stamp = seq_num + count - 1;
 		for k in keys {
-			g.recent_writes.insert(fp(k), stamp);
+			let fk = fp(k);
+			match g.recent_writes.insert(fk, stamp) {
+				Some(old) if old != stamp => {
+					g.displaced.insert(fk, (stamp, old));
+				}
+				Some(_) => {}
+				None => {
+					g.displaced.remove(&fk);
+				}
+			}
 		}
 
 		// `saturating_add` so the counter doesn't overflow if the watermark
@@ -163,6 +178,7 @@ impl CommitOracle {
 			g.commits_since_gc = 0;
 			g.kept_since = oldest_active;
 			g.recent_writes.retain(|_, v| *v >= oldest_active);
+			g.displaced.retain(|_, (by, _)| *by >= oldest_active);
 		}
 	}
 
@@ -197,7 +213,17 @@ impl CommitOracle {
 			let fk = fp(k);
 			if let Some(&v) = g.recent_writes.get(&fk) {
 				if v == my_seq {
-					g.recent_writes.remove(&fk);
+					// Put back the stamp of the last committed writer that this
+					// (failed) commit overwrote; only a key nobody had written
+					// in the retained window is forgotten.
+					match g.displaced.remove(&fk) {
+						Some((by, old)) if by == my_seq => {
+							g.recent_writes.insert(fk, old);
+						}
+						_ => {
+							g.recent_writes.remove(&fk);
+						}
+					}
 				}
 			}
 		}
@@ -220,6 +246,7 @@ impl CommitOracle {
 		g.kept_since = max_seq;
 		g.commits_since_gc = 0;
 		g.recent_writes.clear();
+		g.displaced.clear();
 		// `oldest_active` can legitimately go backwards across a restore (the
 		// seq counter has been rewound). Reset the monotonicity baseline so
 		// the debug assert doesn't fire on the first post-restore GC.
